@@ -387,7 +387,7 @@ def custom_filter_scenarios(seed, n, tier):
     scs = []
     for i, b in enumerate(beh):
         admit = sorted(rng.sample(names, rng.randint(0, len(names))))
-        scs.append({"tid": i + 1, "hist": b["hist"], "rate": 0, "k": 0, "seed": seed * 31 + i, "admit": admit, "twin_rejected": i % 2 == 1})
+        scs.append({"tid": i + 1, "hist": b["hist"], "rate": 0, "k": 0, "seed": seed * 31 + i, "admit": admit, "twin_rejected": i % 2 == 1, "falsy_filter": i % 5 == 2})
     # directed: two code objects of one file with the same short name, called in one session in both orders, the filter
     # admitting exactly one of them (by qualified name)
     call = lambda i: [{"op": "Call", "f": "F", "id": i, "v": "int", "catch": True, "draw": 0},  # noqa: E731
@@ -455,7 +455,7 @@ def main(pid, tier, seed, replay=None):
     for v in tv:
         for clause in v.get("viol", []):
             if clause in ("OnlyAdmitted", "MissingLog", "MissingOrOutOfOrder", "SpuriousLog"):
-                run.violation({"clause": "CustomFilter:" + clause}, {k: sc_by[v["tid"]][k] for k in ("hist", "seed", "admit", "rate", "k", "force", "twin_rejected") if k in sc_by[v["tid"]]})
+                run.violation({"clause": "CustomFilter:" + clause}, {k: sc_by[v["tid"]][k] for k in ("hist", "seed", "admit", "rate", "k", "force", "twin_rejected", "falsy_filter") if k in sc_by[v["tid"]]})
     plan.append({"family": "custom filters: random subsets of the scripted program's functions (tracer replay)", "cases": len(trecs)})
     from . import replay_run
     extended = None if replay else replay_run.extended_stage(tier, seed)
